@@ -81,7 +81,8 @@ def _worker(args):
         # canary: at least one normally-returning path per case must have consistent hypotheses
         alive = {}
         for fn, hyps in getattr(res, "ret_paths", []):
-            st, _ = smt.satisfiable(list(axioms) + hyps, 3000)
+            import z3 as _z3
+            st, _ = smt.satisfiable([h for h in list(axioms) + hyps if h is not True and not _z3.is_quantifier(h)], 1000)
             alive[fn] = alive.get(fn, False) or st != "unsat"
         for fn, ok in alive.items():
             if not ok:
@@ -97,7 +98,7 @@ def _worker(args):
 def run_prover(prop, tier):
     mod = importlib.import_module("contracts." + prop.lower())
     n = len(mod.CONTRACTS)
-    timeout_ms = 20000 if tier == "quick" else 120000
+    timeout_ms = 8000 if tier == "quick" else 120000
     cross = tier == "thorough"
     tasks = [(prop, i, timeout_ms, cross) for i in range(n)]
     if n == 0:
